@@ -3,6 +3,8 @@ package checks
 import (
 	"encoding/json"
 	"fmt"
+	"os"
+	"path/filepath"
 	"regexp"
 	"runtime"
 	"strconv"
@@ -14,6 +16,7 @@ import (
 	"github.com/quickfixgo/quickfix"
 
 	"verif/internal/core"
+	"verif/internal/ddwalk"
 	"verif/internal/fixscan"
 	"verif/internal/sessmc"
 )
@@ -32,11 +35,45 @@ var (
 	c06States = []string{"normal", "recovering", "pending", "pending+recovering", "logout"}
 	// message-validation defects that need no dictionary (validator settings ValidateFieldsHaveValues /
 	// ValidateFieldsOutOfOrder, both default Y)
-	c06Val = []string{"none", "empty-body-field", "empty-header-field", "header-field-after-body", "missing-required-field", "unknown-msgtype"}
+	c06Val = []string{"none", "empty-body-field", "empty-header-field", "header-field-after-body", "missing-required-field", "unknown-msgtype", "undefined-tag-4999", "undefined-tag-5000", "undefined-tag-5001"}
 )
 
 func c06HaveValues(cfg sessmc.Config) bool { return cfg.Extra["ValidateFieldsHaveValues"] != "N" }
 func c06InOrder(cfg sessmc.Config) bool    { return cfg.Extra["ValidateFieldsOutOfOrder"] != "N" }
+
+// c06TrimmedSpec: the session loads its dictionary from the file on every construction (35 ms for the full FIX44);
+// the cases only exchange administrative messages, NewOrderSingle, News, ExecutionReport and BusinessMessageReject, so the
+// sessions are given a copy that keeps exactly those definitions (verbatim) with header, trailer and what they reference.
+var (
+	c06TrimMu  sync.Mutex
+	c06Trimmed = map[string]string{}
+)
+
+func c06TrimmedSpec(path string) string {
+	c06TrimMu.Lock()
+	defer c06TrimMu.Unlock()
+	if p, ok := c06Trimmed[path]; ok {
+		return p
+	}
+	out := path
+	if f, err := os.Open(path); err == nil {
+		defer f.Close()
+		keep := map[string]bool{}
+		for _, t := range []string{"0", "1", "2", "3", "4", "5", "A", "B", "D", "8", "j"} {
+			keep[t] = true
+		}
+		if b, err := ddwalk.Trim(f, keep); err == nil {
+			dir, cleanup := core.Scratch("c06spec") // lives as long as the process
+			core.AtExit(cleanup)
+			out = filepath.Join(dir, filepath.Base(path))
+			if os.WriteFile(out, b, 0o644) != nil {
+				out = path
+			}
+		}
+	}
+	c06Trimmed[path] = out
+	return out
+}
 
 type c06Case struct {
 	Cfg                                         sessmc.Config
@@ -179,6 +216,12 @@ func c06Build(w *sessmc.World, c c06Case) (*sessmc.In, time.Time) {
 		in.Del = append(in.Del, 11)
 	case "unknown-msgtype":
 		in.Type, in.Body = "ZZ", nil
+	case "undefined-tag-4999":
+		in.Body = append(in.Body, fixscan.Field{4999, "X"})
+	case "undefined-tag-5000":
+		in.Body = append(in.Body, fixscan.Field{5000, "X"})
+	case "undefined-tag-5001":
+		in.Body = append(in.Body, fixscan.Field{5001, "X"})
 	case "header-field-after-body":
 		// a body field first (types without a body would otherwise keep the tag inside the header), then the header tag
 		in.Body = append(in.Body, fixscan.Field{58, "text"}, fixscan.Field{129, "LATE"})
@@ -271,7 +314,7 @@ func c06Expected(c c06Case) (allowed []c06Allowed, gateClosed bool, mandatory in
 
 func optional(c c06Case, allowed []c06Allowed) int {
 	n := optionalTime(c) + optionalDict(c)
-	if v := c06Val[c.Val]; (v == "missing-required-field" || v == "unknown-msgtype") && c06ValDefect(c) != 0 {
+	if v := c06Val[c.Val]; (v == "missing-required-field" || v == "unknown-msgtype" || strings.HasPrefix(v, "undefined-tag")) && c06ValDefect(c) != 0 {
 		n++ // only the gate is judged for these (the kind of reject is C15's subject)
 	}
 	return n
@@ -333,6 +376,17 @@ func c06ValDefect(c c06Case) int {
 	case "unknown-msgtype":
 		if c.Cfg.DataDictionary != "" {
 			return 35
+		}
+	case "undefined-tag-4999": // below the user-defined range: refused unless unknown fields are allowed
+		if c.Cfg.DataDictionary != "" && c.Cfg.Extra["RejectInvalidMessage"] != "N" && c.Cfg.Extra["AllowUnknownMsgFields"] != "Y" {
+			return 4999
+		}
+	case "undefined-tag-5000", "undefined-tag-5001": // user-defined range (from 5000): refused unless their validation is off
+		if c.Cfg.DataDictionary != "" && c.Cfg.Extra["RejectInvalidMessage"] != "N" && c.Cfg.Extra["ValidateUserDefinedFields"] != "N" {
+			if c06Val[c.Val] == "undefined-tag-5000" {
+				return 5000
+			}
+			return 5001
 		}
 	}
 	return 0
@@ -458,7 +512,11 @@ func c06Match(o c06Outcome, a c06Allowed, oldFix bool) bool {
 
 // c06Eval runs one case and returns a violation (rule, text) or "".
 func c06Eval(c c06Case) (rule, what string, err error) {
-	w, e := sessmc.NewWorld(c.Cfg)
+	wcfg := c.Cfg
+	if wcfg.DataDictionary != "" {
+		wcfg.DataDictionary = c06TrimmedSpec(wcfg.DataDictionary)
+	}
+	w, e := sessmc.NewWorld(wcfg)
 	if e != nil {
 		return "", "", e
 	}
@@ -658,6 +716,10 @@ func c06Configs(quick bool) []sessmc.Config {
 			out = append(out, sessmc.Config{BeginString: "FIX.4.4", DataDictionary: specDir + "FIX44.xml", Extra: y})
 		}
 	}
+	// the two settings that decide about fields the dictionary does not define, each alone and together
+	for _, x := range []map[string]string{{"AllowUnknownMsgFields": "Y"}, {"ValidateUserDefinedFields": "N"}, {"AllowUnknownMsgFields": "Y", "ValidateUserDefinedFields": "N"}} {
+		out = append(out, sessmc.Config{BeginString: "FIX.4.4", DataDictionary: specDir + "FIX44.xml", Extra: x})
+	}
 	return out
 }
 
@@ -668,7 +730,7 @@ func runC06(c *core.Ctx) {
 	} else {
 		c.SetDeadline(45 * time.Minute)
 	}
-	c.SetRule("cartesian product of header-field variants (BeginString 2 x SenderCompID 4 x TargetCompID 4 x SendingTime 7 x MsgSeqNum 6 x PossDupFlag 4 x OrigSendingTime 5 x MsgType 10 x validation defect 6 {none, empty body field, empty routing header field, header field after the body, required body field missing, unknown MsgType (the last two with a dictionary)}) delivered to a real session in each of 5 states and each configuration; quick: at most two non-default axes per message, thorough: full product for two configurations and pairs elsewhere; distinct = distinct (config,state,message) triples")
+	c.SetRule("cartesian product of header-field variants (BeginString 2 x SenderCompID 4 x TargetCompID 4 x SendingTime 7 x MsgSeqNum 6 x PossDupFlag 4 x OrigSendingTime 5 x MsgType 10 x validation defect 9 {none, empty body field, empty routing header field, header field after the body, required body field missing, unknown MsgType, a body field the dictionary does not define numbered 4999 / 5000 / 5001 (the last five with a dictionary; AllowUnknownMsgFields / ValidateUserDefinedFields each alone and together)}) delivered to a real session in each of 5 states and each configuration; quick: at most two non-default axes per message, thorough: full product for two configurations and pairs elsewhere; distinct = distinct (config,state,message) triples")
 	c.Assume("oracle is set-valued: with several defects present any reaction mandated for one of them is accepted", "in-session Logon messages are judged only by the only-if part",
 		"Reject naming the field: RefTagID (FIX.4.2+) or the '(tag)' suffix of Text (FIX.4.0/4.1)", "SendingTime fresh to within a second; MaxLatency default 120 s; stale = 1 h",
 		"validator settings: ValidateFieldsOutOfOrder / ValidateFieldsHaveValues each N alone and together, with and without a dictionary (RejectInvalidMessage=N); a validation defect closes the gate exactly when its setting is on")
@@ -709,6 +771,10 @@ func runC06(c *core.Ctx) {
 												}
 												if v := c06Val[val]; v == "missing-required-field" || v == "unknown-msgtype" {
 													if cfg.DataDictionary == "" || nd != 1 || (v == "missing-required-field") != (c06Types[ty] == "D") || (v == "unknown-msgtype") != (c06Types[ty] == "ZZ") {
+														continue
+													}
+												} else if strings.HasPrefix(v, "undefined-tag") {
+													if cfg.DataDictionary == "" || nd != 1 || c06Types[ty] != "D" {
 														continue
 													}
 												}
